@@ -12,8 +12,8 @@
   * d-engine-core/src/state_machine_handler/default_state_machine_handler.rs `create_snapshot`
       (label = last_applied − retained_log_entries, saturating) and the engines' `generate_snapshot_data`
       (`update_last_snapshot_metadata`), `snapshot_metadata`, `persist_last_snapshot_metadata`
-      (File: memory only; RocksDB: META column family), `LogStore::load_purge_boundary`
-      (File: trait default `None`; RocksDB: persisted by the purge IO task)
+      (File: `snapshot_metadata.bin`; RocksDB: META column family), `LogStore::load_purge_boundary`
+      (File: `purge_boundary.bin`; RocksDB: META column family; both written by the purge IO task)
   * d-engine-core/src/replication/replication_handler.rs `prepare_batch_requests`: snapshot-target rule
       `min_log_index > 1 && next_index < min_log_index`, otherwise `build_append_request` prev = next−1,
       prev_term = `entry_term(prev).unwrap_or(0)`
@@ -121,13 +121,11 @@ def onSnapshotCreated (s0 : PState) : PState × Option Nat :=
   | some p => ({ purgeLog s p.1 p.2 with rolePurged := newRolePurged s0.role s0.rolePurged p.1 }, some p.1)
   | none => (s, none)
 
-/-- graceful restart into role `r` -/
+/-- graceful restart into role `r`: the log (with its purge boundary), the applied index and the snapshot metadata
+    are persistent on both engines (File engine: since fixes 8997011 `snapshot_metadata.bin` and aab5543
+    `purge_boundary.bin`; before them the boundary and the metadata were lost: F26a / F26b); the role state is fresh -/
 def restart (s : PState) (r : Role) : PState :=
-  match s.eng with
-  | .rocks => { s with role := r, commit := 0, rolePurged := none, sched := none }
-  | .file =>
-      -- purge boundary not persisted, snapshot metadata memory-only
-      { s with role := r, commit := 0, rolePurged := none, sched := none, bIdx := 0, bTerm := 0, snap := none }
+  { s with role := r, commit := 0, rolePurged := none, sched := none }
 
 inductive POp where
   | write (k t : Nat)
